@@ -1,10 +1,10 @@
 #!/bin/bash
 # C05 companion: deeply nested bencode against an UNOPTIMISED build of the decoder, in a subprocess
 # (a stack overflow aborts the process and cannot be caught in-process). exit 0 clean, 1 report, 2 inconclusive
-cd /verif/harness || exit 2
+ROOT="$(cd "$(dirname "$0")/.." && pwd)"; cd "$ROOT/harness" || exit 2
 export CARGO_NET_OFFLINE=true
 cargo build --offline --quiet --profile dbg0 2>/tmp/c05nest.build.err || { tail -5 /tmp/c05nest.build.err; echo "build failed"; exit 2; }
-out=$(./target/dbg0/mlv c05nest --out /verif/harness/target/c05nest.json 2>&1); rc=$?
+out=$(./target/dbg0/mlv c05nest --out $ROOT/harness/target/c05nest.json 2>&1); rc=$?
 echo "$out" | tail -4
 if [ $rc -ge 128 ] || echo "$out" | grep -q "overflowed its stack"; then echo "REPORT: decoder aborted on nested bencode (exit $rc)"; exit 1; fi
 [ $rc -eq 0 ] || { echo "probe exit $rc"; exit 2; }
